@@ -131,6 +131,39 @@ def check_events(res, f, cfg):
         res.count('configurations_with_tid_zero')
 
 
+def check_history(res, rng, files):
+    """One front-end object, its filters changed between requests (and the files alternated): every request must
+    honour the filters as they are set at that moment."""
+    from pykdebugparser.pykdebugparser import PyKdebugParser
+    p = PyKdebugParser()
+    trail = []
+    for step in range(rng.randrange(2, 6)):
+        f = rng.choice(files)
+        cfg = gen_config(rng, f)
+        p.filter_tid = cfg['tid']
+        if rng.random() < 0.5 and isinstance(p.filter_class, list) and isinstance(cfg['classes'], list):
+            p.filter_class[:] = cfg['classes']        # edited in place, as a long-lived caller may do
+        else:
+            p.filter_class = cfg['classes']
+        p.filter_subclass = cfg['subs']
+        trail.append({k: (list(v) if isinstance(v, tuple) else v) for k, v in cfg.items()})
+        case = {'file': f['data'], 'configs': trail}
+        try:
+            lazy = p.kevents(io.BytesIO(f['data']))
+            got = [wire.event_tuple(e) for e in lazy]
+        except Exception as x:
+            res.violation(f'c12-raises-{core.exc_name(x)}', f'request {step + 1} on one object under {cfg}: {x!r}', case)
+            return
+        res.case((f['data'], 'history', repr(trail)))
+        res.count('history_requests')
+        if got != model_events(f['records'], cfg):
+            res.violation('c12-filter-after-reconfiguration', f'request {step + 1} on one front-end object (filters changed '
+                          f'between requests, now tid={cfg["tid"]} classes={list(cfg["classes"])} subclasses='
+                          f'{[hex(x) for x in cfg["subs"]]}): {len(got)} events, model selects '
+                          f'{len(model_events(f["records"], cfg))}', case)
+            return
+
+
 def check_logs(res, f, rng):
     from pykdebugparser.pykdebugparser import PyKdebugParser
     from pykdebugparser.os_log_event import OsLogEvent
@@ -206,8 +239,9 @@ def run(ctx):
     res = core.Result()
     rng = ctx.rng
     tmpdir = tempfile.mkdtemp(prefix='verif-c12-')
+    recent = []
     try:
-        for i in range(ctx.pick(60, 1000)):
+        for i in range(ctx.pick(80, 8000)):
             f = gen_file(rng)
             base = {'tid': None, 'classes': [], 'subs': []}
             check_events(res, f, base)
@@ -218,6 +252,9 @@ def run(ctx):
                     check_cli(res, f, cfg, tmpdir)
             if f['kind'] == 'v3':
                 check_logs(res, f, rng)
+            recent.append(f)
+            if len(recent) >= 2:
+                check_history(res, rng, recent[-3:])
     finally:
         try:
             os.rmdir(tmpdir)
@@ -232,6 +269,7 @@ def run(ctx):
     res.require('configurations_with_tid_zero', 1)
     res.require('log_configurations', 10)
     res.require('cli_configurations', 3)
+    res.require('history_requests', 20)
     return res
 
 
